@@ -163,6 +163,20 @@ func init() {
 			return nil
 		},
 		"FloatIsNaN": func(fr *frame, args []value) value { return extIsNaN(fr, args) },
+		// SameFloat64(a, b): identical as IEEE values (structural SMT equality: NaN same as NaN). Identical terms are
+		// decided without the solver, which is what makes symbolic x symbolic products comparable (DESIGN §8 C05).
+		"SameFloat64": func(fr *frame, args []value) value {
+			a, aok := args[0].(sym)
+			b, bok := args[1].(sym)
+			if !aok && !bok {
+				x, y := args[0].(float64), args[1].(float64)
+				return x == y || (x != x && y != y)
+			}
+			if aok && bok && a.e == b.e {
+				return true
+			}
+			return fr.i.x.mk("(= "+litE(args[0])+" "+litE(args[1])+")", sBool)
+		},
 		"LoadImage": func(fr *frame, args []value) value {
 			// LoadImage(name string, root any): fills *root (a pointer to the wanted type) from the heap image
 			return loadImage(fr, args[0].(string), args[1].(iface))
